@@ -102,7 +102,7 @@ def witness_search(prop, f, timeout=120):
                 ws.append(json.loads(ln[8:]))
             except Exception:
                 pass
-    if prop in ("C03", "C08"):
+    if prop in ("C03", "C08", "C05"):
         # the optional value types (Json, chrono, time, uuid, decimal, network types, arrays): the second native crate, built with those features
         from . import kani as _k
         ns = _k.run_native_search(prop)
